@@ -31,6 +31,15 @@ namespace vh::pk {
         std::function<void(pika::resource::partitioner&)> rp_cb = {});
     // finalize + stop; returns stop()'s value
     int stop();
+    // extra pools: PUs are taken from the front; the default pool keeps rt.workers threads
+    struct PoolSpec
+    {
+        std::string name;
+        int policy;
+        int threads;
+        int mode;    // -1: pika default mode; else scheduler_mode bits
+    };
+    void start_with_pools(RunCtx& ctx, std::vector<PoolSpec> const& pools, std::function<int()> entry = {});
     void preload();    // zygote: load topology etc.
     std::string dump();
     int workers(RunCtx& ctx);
